@@ -154,7 +154,36 @@ func (s *Server) getSettings() serverSettings {
 	return s.settings
 }
 
-func (s *Server) refreshConfiguration(ctx context.Context) {
+// nextRefresh numbers a configuration refresh. It is called on the handler
+// thread, so the numbers follow the order of the client's notifications.
+func (s *Server) nextRefresh() uint64 {
+	s.settingsMu.Lock()
+	defer s.settingsMu.Unlock()
+	s.refreshSeq++
+	return s.refreshSeq
+}
+
+func (s *Server) isNewestRefresh(seq uint64) bool {
+	s.settingsMu.RLock()
+	defer s.settingsMu.RUnlock()
+	return seq == s.refreshSeq
+}
+
+// applyConfiguration puts the settings in raw on top of the current ones, unless
+// a newer refresh has been requested in the meantime: the answer to that one is
+// what counts, and a late answer to an older request must not override it.
+// refreshMu is held from the check to the end of the store, so the refreshes
+// apply their answers one at a time, each on top of the result of the one before.
+func (s *Server) applyConfiguration(seq uint64, raw interface{}) {
+	s.refreshMu.Lock()
+	defer s.refreshMu.Unlock()
+	if !s.isNewestRefresh(seq) {
+		return
+	}
+	s.setSettings(parseSettingsFromRaw(s.getSettings(), raw))
+}
+
+func (s *Server) refreshConfiguration(ctx context.Context, seq uint64) {
 	if s.client == nil || !s.supportsConfiguration {
 		return
 	}
@@ -166,12 +195,11 @@ func (s *Server) refreshConfiguration(ctx context.Context) {
 	if err != nil || len(result) == 0 {
 		return
 	}
-	settings := parseSettingsFromRaw(s.getSettings(), result[0])
-	s.setSettings(settings)
+	s.applyConfiguration(seq, result[0])
 }
 
 func (s *Server) DidChangeConfiguration(_ context.Context, _ *protocol.DidChangeConfigurationParams) error {
-	go s.refreshConfiguration(context.Background())
+	go s.refreshConfiguration(context.Background(), s.nextRefresh())
 	return nil
 }
 
